@@ -17,52 +17,52 @@ CHECKS = {
          "Random target path sets and uses entries of every listed shape; the index's edge set (hook) and the rendered dot file (CLI) must equal dep(T,U) in both directions.",
          "trusts model::dep and the index_edges hook (read accessor of the adjacency list)", "4/C10"),
  "C02": ("exploration", "stateful model-based property testing (proptest op sequences against a repository-history model)",
-         "Generated histories of create/edit/delete/move/stage/commit operations on a real git repository, mirrored in a model of commit trees, index and working tree, with interleaved checkpoint placements and `analyze --changes [--begin/--end]` observations compared as sets with the model.",
+         "Generated histories of create/edit/delete/move/stage/commit operations on a real git repository, mirrored in a model of commit trees, index and working tree, with interleaved checkpoint placements and `analyze --changes [--begin/--end]` observations compared as sets with the model. Files sit around the 64 KiB and 2 MiB I/O boundaries, edits may change only the tail or nothing but the mtime.",
          "trusts the history model in harness/src/hist.rs and git itself; mode changes, rm --cached, symlinks and names with newlines are outside the generated domain", "4/C02"),
  "C04": ("exploration", "property-based testing over schedules with a trace-based ordering invariant (proptest + helper executable traces)",
-         "Generated acyclic configurations, selection modes, command/sequence lists and child run-time assignments; the helper executable every command runs records CLOCK_MONOTONIC start/end, and the invariant start(T) >= end(U) is checked for every dependency pair and consecutive commands.",
+         "Generated acyclic configurations, selection modes, command/sequence lists and child run-time assignments; the helper executable every command runs records CLOCK_MONOTONIC start/end, and the invariant start(T) >= end(U) is checked for every dependency pair and consecutive commands. A size-boundary mode generates groups of 28-40 / 60-70 (thorough: up to 130) independent targets below their dependents.",
          "time stamps are taken inside the child (start after spawn, end before exit), so a correct scheduler cannot alarm; overlaps shorter than process start-up can be missed", "4/C04"),
  "C05": ("exploration", "property-based differential testing of run against analyze and a closure model (proptest + traces)",
-         "Generated configurations x repository states x commands (some undefined) x selection modes; result document, `analyze --target-groups` taken immediately before, model closure and helper start records must agree exactly.",
+         "Generated configurations x repository states x commands (some undefined) x selection modes; result document, `analyze --target-groups` taken immediately before, model closure and helper start records must agree exactly. A size-boundary mode (groups of 14-20, 30-36, 62-68 members), custom command directories and the identity of every started executable are part of the check.",
          "all helpers exit 0; new file names are ASCII", "4/C05"),
  "C06": ("fault_enumeration", "fault-injection property testing (proptest over fault placements and injected delays) + deterministic delay sweep",
          "Generated plan shapes with 0-3 faults of every kind at any position, --fail-on-undefined, child timings and delays injected at guarded points of the run's own bookkeeping; flag, exit status, skipped-ness and truthfulness of every status are judged against the helper traces.",
          "internal schedules are steered through delay points and TOKIO_WORKER_THREADS, not owned; siblings of a failed task are judged for truthfulness only", "4/C06"),
  "C07": ("exploration", "stateful model-based property testing (proptest op sequences, hot-file round trips)",
-         "History prefix, `checkpoint update -p`, later edits and repeated updates on a real repository; after every update analyze and run must be empty, after every later operation the re-flagged targets must equal the model (pending map computed by the harness, not read back).",
+         "History prefix, `checkpoint update -p`, later edits and repeated updates on a real repository; after every update analyze and run must be empty, after every later operation the re-flagged targets must equal the model (pending map computed by the harness, not read back). Hot-file round trips (delete / re-create / tail edit / commit / update) and files larger than 2 MiB are generated deliberately.",
          "trusts the history model and model::affected; edits always produce never-seen content", "4/C07"),
  "C11": ("exploration", "property-based testing against an argv/cwd/resolution model (proptest + helper start records)",
-         "Generated target layouts, command definitions of every kind, decoys, base/named/missing argmap files, --argmaps/--no-base-argmaps/--args with awkward argument strings; every started process must match the model's (exe, cwd, argv).",
+         "Generated target layouts, command definitions of every kind, decoys, base/named/missing argmap files, --argmaps/--no-base-argmaps/--args with awkward argument strings; every started process must match the model's (exe, cwd, argv). Targets may share custom directories, use each other, and be run with -t X --deps.",
          "--args values never start with '-'; no two files share a stem in one command directory", "4/C11"),
  "C12": ("exploration", "stateful model-based property testing (run histories against a ring model)",
-         "Histories of up to 3M+3 runs for M in 1..5 with differing commands, targets, outputs and failures; after every run result show, log show and log show --id are compared with the model of the ids in use; directory count bounded.",
+         "Histories of up to 3M+3 runs for M in 1..5 with differing commands, targets, outputs and failures; after every run result show, log show and log show --id are compared with the model of the ids in use; directory count bounded. Invocations that abort before completing are interleaved (max_retained_runs >= 2) and must leave everything pointing at the last completed run.",
          "a run's id is read from its printed document; failing runs use -t so that no sibling is cancelled", "4/C12"),
  "C16": ("exploration", "property-based testing with rendezvous (barrier) helpers",
-         "Groups of 2..24 (quick) / 2..64 (thorough) members at varying plan positions, commands and tokio worker counts; all members wait for each other's start; completion is required.",
+         "Groups of 2..24 (quick) / 2..64 (thorough) members at varying plan positions, commands and tokio worker counts; all members wait for each other's start; completion is required. Group sizes include 31-34 and 63-66, and 30% of the scenarios have a log tail listener attached.",
          "liveness approximated by a 30 s barrier time-out confirmed with 60 s", "4/C16"),
  "C17": ("fault_enumeration", "tamper enumeration (one edit at every offset of a small triple) + property-based sampling of tampers on large configs",
-         "After the real `config generate`, every API must work on the untouched triple and must fail without acting after any single XOR/truncate/append tamper of source, generated file or lockfile, at offsets incl. the 8 KiB buffer boundaries.",
+         "After the real `config generate`, every API must work on the untouched triple and must fail without acting after any single XOR/truncate/append tamper of source, generated file or lockfile, at offsets incl. the 8 KiB buffer boundaries. Appends include NUL bytes and bytes repeating the content one buffer length earlier.",
          "two of nine APIs are exercised per tamper (rotating); lockfile edits that keep the checksum value are not judged", "4/C17"),
  "C18": ("exploration", "metamorphic property testing (re-serialisation of one JSON value)",
-         "A valid configuration value is written in 4-8 serialisations (whitespace, key order, escapes, padding to sizes around and far beyond 8 KiB) by the harness's own writer; config show, target show -g and analyze --target-groups must give JSON-equal output and equal exit status.",
+         "A valid configuration value is written in 4-8 serialisations (whitespace, key order, escapes, padding to sizes around and far beyond 8 KiB) by the harness's own writer; config show, target show -g and analyze --target-groups must give JSON-equal output and equal exit status. A non-ASCII character is aligned to end before, straddle, or start at multiples of 1-64 KiB.",
          "validity of the value is established through the in-process hook; the writer is self-checked by parsing its output back", "4/C18"),
  "C19": ("exploration", "stateful model-based property testing (Option<checkpoint> model)",
-         "Generated sequences of commits, edits, updates (no flags / --id sha / --id token / -p), show, delete, out delete --all, analyze and run; show must equal the last update's result, updates without --id must record git's HEAD, and without a checkpoint analyze/run must cover every target.",
+         "Generated sequences of commits, edits, updates (no flags / --id sha / --id token / -p), show, delete, out delete --all, analyze and run; show must equal the last update's result, updates without --id must record git's HEAD, and without a checkpoint analyze/run must cover every target. Pending maps far larger than 64 KiB are generated.",
          "analyze/run are judged only in the no-checkpoint state here", "4/C19"),
  "C08": ("exploration", "round-trip property testing under a virtual clock (proptest + tokio paused time) and in real time through the CLI",
-         "Generated write/pause scripts on 2-8 concurrent streams drive the real process_reader + Compressor through the capture hook under tokio's paused clock with a seeded select order, and the same scripts run as real helper processes under `monorail run`; every stored .zst must decode to exactly the bytes written, and log show must print one header plus exactly those bytes per non-empty log.",
+         "Generated write/pause scripts on 2-8 concurrent streams drive the real process_reader + Compressor through the capture hook under tokio's paused clock with a seeded select order, and the same scripts run as real helper processes under `monorail run`; every stored .zst must decode to exactly the bytes written, and log show must print one header plus exactly those bytes per non-empty log. Chunks include 130-600 KB of poorly compressible data (several zstd blocks).",
          "the in-process variant owns time but not the two compressor OS threads; the real-time variant judges tasks reported success", "4/C08"),
  "C13": ("fault_enumeration", "crash-point enumeration via guarded points + property-based timed SIGKILL",
          "For generated histories and victims, the victim's guarded points are recorded and the run is then killed at each (point, hit) from a restored pre-state, plus SIGKILLs at generated fractions of its duration; checkpoint/result/log observations must equal the pre-state (or, from the pointer write on, the complete victim), and the next run must succeed.",
          "crash points are the guarded points plus random kill times; unsynced-data (power loss) semantics are out of scope", "4/C13"),
  "C14": ("exploration", "property-based testing of multi-process schedules with an interval-disjointness invariant (proptest + guarded point log)",
-         "Generated mixes of the four mutating APIs racing freely, and against a holder kept inside its critical section (gated helper or delay after acquisition) that ends normally, by failure or by SIGKILL; acquisition/release time stamps from the point log must never overlap, losers must fail with a lock error without starting anything or changing the out directory, and the next invocation must acquire at once.",
+         "Generated mixes of the four mutating APIs racing freely, and against a holder kept inside its critical section (gated helper or delay after acquisition) that ends normally, by failure or by SIGKILL; acquisition/release time stamps from the point log must never overlap, losers must fail with a lock error without starting anything or changing the out directory, and the next invocation must acquire at once. Bind attempts are time-stamped too: a process that tried while the lock was demonstrably held must never acquire (late contenders are started 110-400 ms before the holder ends).",
          "schedules are sampled (start offsets, holder kind), not owned; lock.release is logged before the guard drops, a killed holder's interval ends at a pre-kill time stamp", "4/C14"),
  "C15": ("fault_enumeration", "differential property testing with injected listener faults (proptest)",
-         "The same generated run plan is executed without a listener and with a real `log tail` or a harness-owned fake listener under generated faults (killed before the run, killed/closed after a delay, closed after N bytes, closed before the handshake); exit status, failed flag, every (status, code) and the decoded stored logs must be equal.",
+         "The same generated run plan is executed without a listener and with a real `log tail` or a harness-owned fake listener under generated faults (killed before the run, killed/closed after a delay, closed after N bytes, closed before the handshake); exit status, failed flag, every (status, code) and the decoded stored logs must be equal. Plans contain lines split across the flush tick and streams without a final newline.",
          "listener death times are sampled; a listener that stays connected but stops reading is outside the quantifier", "4/C15"),
  "C20": ("exploration", "property-based testing of the tail stream with a block grammar and reassembly oracle (proptest)",
-         "Runs with groups of up to 8/24 concurrently writing tasks whose lines carry their identity, under a real `log tail` with generated filters and tokio worker counts; the captured listener output must parse as header-introduced blocks, every line must belong to its block's task, blocks must reassemble to the stored log per (stream,target,command), and only admitted keys may appear.",
+         "Runs with groups of up to 8/24 concurrently writing tasks whose lines carry their identity, under a real `log tail` with generated filters and tokio worker counts; the captured listener output must parse as header-introduced blocks, every line must belong to its block's task, blocks must reassemble to the stored log per (stream,target,command), and only admitted keys may appear. Lines may be written in two parts with the flush tick in between.",
          "interleavings of the per-task flushes are sampled (tokio worker count, pauses around the flush tick), not owned", "4/C20"),
 }
 
